@@ -182,3 +182,53 @@ pub fn space_std(shape: &str, lens: &[usize], live0: i64) -> Option<(usize, i64,
         _ => None,
     }
 }
+
+/// the public generators of qwt::perf_and_test_utils (randomised: only their contracts are judged)
+pub fn exec_testutil(ev: &mut Value) {
+    use qwt::perf_and_test_utils as tu;
+    let m = ev["m"].as_str().unwrap().to_string();
+    let n = ev["n"].as_u64().unwrap_or(0) as usize;
+    let us = |k: &str| ev[k].as_u64().unwrap_or(0) as usize;
+    let list = |v: Vec<usize>| json!(v.into_iter().map(res_val).collect::<Vec<i64>>());
+    let out: Result<Value, String> = match m.as_str() {
+        "gen_sequence" => {
+            let sigma = us("sigma");
+            guard(|| list(tu::gen_sequence(n, sigma).into_iter().map(|x| x as usize).collect()))
+        }
+        "gen_queries" => {
+            let r = us("range");
+            guard(|| list(tu::gen_queries(n, r)))
+        }
+        "gen_queries_pairs" => {
+            let (r, sigma) = (us("range"), us("sigma"));
+            guard(|| json!(tu::gen_queries_pairs(n, r, sigma).into_iter().map(|(a, b)| vec![res_val(a), res_val(b)]).collect::<Vec<_>>()))
+        }
+        "gen_strictly_increasing_sequence" => {
+            let u = us("u");
+            guard(|| list(tu::gen_strictly_increasing_sequence(n, u)))
+        }
+        "negate_vector" => {
+            let v: Vec<usize> = ev["v"].as_array().unwrap().iter().map(|x| x.as_u64().unwrap() as usize).collect();
+            guard(|| list(tu::negate_vector(&v)))
+        }
+        "gen_rank_queries" => {
+            let s: Vec<u8> = ev["s"].as_array().unwrap().iter().map(|x| x.as_u64().unwrap() as u8).collect();
+            guard(|| json!(tu::gen_rank_queries(n, &s).into_iter().map(|(a, b)| vec![res_val(a), b as i64]).collect::<Vec<_>>()))
+        }
+        "gen_select_queries" => {
+            let s: Vec<u8> = ev["s"].as_array().unwrap().iter().map(|x| x.as_u64().unwrap() as u8).collect();
+            guard(|| json!(tu::gen_select_queries(n, &s).into_iter().map(|(a, b)| vec![res_val(a), b as i64]).collect::<Vec<_>>()))
+        }
+        _ => Ok(json!([NA])),
+    };
+    match out {
+        Ok(v) => {
+            set(ev, "ok", json!(0));
+            set(ev, "out", v);
+        }
+        Err(_) => {
+            set(ev, "ok", json!(PANIC));
+            set(ev, "out", json!([]));
+        }
+    }
+}
